@@ -57,11 +57,24 @@ const ROLLING: [(&str, &str); 5] = [
     ("rolling:continuation", "(call/cc (lambda (k) k))"),
 ];
 
+/// The same garbage loops, but the evaluation is driven in slices (prepare_eval + run_count(b)), the
+/// way marwood-wasm drives it: memory must be bounded for every budget.
+const SLICED: [(&str, &str, usize); 4] = [
+    ("sliced-1000:pairs", "(cons i (list i i))", 1000),
+    ("sliced-100:closures-and-environments", "((lambda (x) (lambda () (+ x i))) i)", 100),
+    ("sliced-8191:vectors", "(vector i (make-vector 6 i))", 8191),
+    ("sliced-7:strings", "(string-append \"ab\" (number->string i) (make-string 3 #\\z))", 7),
+];
+
 pub fn measure_loop(body: &str, live: usize, n: u64) -> Result<Usage, String> {
     measure_loop_shape(body, live, n, false)
 }
 
 pub fn measure_loop_shape(body: &str, live: usize, n: u64, rolling: bool) -> Result<Usage, String> {
+    measure_loop_full(body, live, n, rolling, None)
+}
+
+pub fn measure_loop_full(body: &str, live: usize, n: u64, rolling: bool, slice: Option<usize>) -> Result<Usage, String> {
     let base = alloc::live_bytes() as isize;
     let mut m = MwVm::new();
     for f in parse_forms(&setup(live)) {
@@ -78,7 +91,18 @@ pub fn measure_loop_shape(body: &str, live: usize, n: u64, rolling: bool) -> Res
     };
     for f in parse_forms(&prog) {
         // no instruction watchdog here: long loops are the point
-        match crate::mw::catch(|| m.vm.eval(&f)) {
+        let r = match slice {
+            None => crate::mw::catch(|| m.vm.eval(&f).map(|_| ())),
+            Some(b) => crate::mw::catch(|| {
+                m.vm.prepare_eval(&f)?;
+                loop {
+                    if m.vm.run_count(b)?.is_some() {
+                        return Ok(());
+                    }
+                }
+            }),
+        };
+        match r {
             Ok(Ok(_)) => {}
             Ok(Err(e)) => return Err(format!("error {}", e)),
             Err(p) => return Err(format!("panic {}", p.message)),
@@ -171,7 +195,7 @@ pub fn run(ctx: &Ctx, rep: &mut Report) {
     let ns: Vec<u64> = if ctx.quick() { vec![10_000] } else { vec![10_000, 100_000] };
     let lives = [0usize, 10, 1000];
     let mut cases: Vec<(usize, usize, u64)> = vec![];
-    for k in 0..=KINDS.len() + ROLLING.len() {
+    for k in 0..=KINDS.len() + ROLLING.len() + SLICED.len() {
         for l in lives {
             for n in &ns {
                 cases.push((k, l, *n));
@@ -188,7 +212,10 @@ pub fn run(ctx: &Ctx, rep: &mut Report) {
             }
         }
         rep.evaluations += 1;
-        let (kind, small, large) = if *k > KINDS.len() {
+        let (kind, small, large) = if *k > KINDS.len() + ROLLING.len() {
+            let (name, body, b) = SLICED[*k - KINDS.len() - ROLLING.len() - 1];
+            (name, measure_loop_full(body, *live, *n / 2, false, Some(b)), measure_loop_full(body, *live, *n * 5, false, Some(b)))
+        } else if *k > KINDS.len() {
             let (name, body) = ROLLING[*k - KINDS.len() - 1];
             // short loops: what is compared is the number of cells the one survivor keeps allocated, and a
             // retained chain of 10^4 objects would already exhaust the native stack in the marker (C19)
